@@ -1,6 +1,7 @@
 import O4.Lemmas.Obfs4Server
 import O4.Lemmas.ServerAccept
 import O4.Generated.Facts.Obfs4
+import O4.Generated.Facts.Replayfilter
 /-!
 # C03 — the obfs4 server is silent to anyone who cannot prove knowledge of the bridge line
 
@@ -306,6 +307,32 @@ theorem close_path_structure :
     "Conn.Close" ∈ O4.Facts.Obfs4.obfs4Conn_closeAfterDelay_calls ∧
     "Conn.Write" ∉ O4.Facts.Obfs4.obfs4Conn_closeAfterDelay_calls ∧
     "Conn.SetDeadline" ∈ O4.Facts.Obfs4.obfs4Conn_serverHandshake_calls := by
+  decide
+
+/-- **silence to replays under CONCURRENT arrivals rests on this (structural facts, go/ast, regenerated
+    on every run)**.  The model hands the replay filter one clock reading per submission, in the order
+    of the submissions; `silent` then covers every replay whose MAC the filter still holds.  For
+    connections handled by concurrent goroutines that order is the order in which they take the
+    filter's mutex — *provided the clock is read under that mutex*: `parseClientHandshake` submits the
+    MAC through `filter.TestAndSetNow` and **never** through `filter.TestAndSet(now, …)` with a reading
+    of its own (it reads no `time.Now` itself; the hour comes from `getEpochHour`), and
+    `TestAndSetNow` takes `Lock(); defer Unlock()` having touched only the immutable key, makes no
+    `time.Now` call before the lock and one after it.  (With the reading taken by the caller two
+    genuine handshakes arriving together on an empty or expired filter can present their times out of
+    order; `compactFilter` takes that for a clock that jumped backwards and flushes the filter, after
+    which a replay of an earlier handshake is *answered* — the repaired defect
+    `concurrent-replay-on-empty-filter`.) -/
+theorem replay_silence_needs_clock_under_lock :
+    "filter.TestAndSetNow" ∈ O4.Facts.Obfs4.serverHandshake_parseClientHandshake_calls ∧
+    "filter.TestAndSet" ∉ O4.Facts.Obfs4.serverHandshake_parseClientHandshake_calls ∧
+    "time.Now" ∉ O4.Facts.Obfs4.serverHandshake_parseClientHandshake_calls ∧
+    "getEpochHour" ∈ O4.Facts.Obfs4.serverHandshake_parseClientHandshake_calls ∧
+    "time.Now" ∉ O4.Facts.Obfs4.func_newServerHandshake_calls ∧
+    O4.Facts.Replayfilter.ReplayFilter_TestAndSetNow_locked = true ∧
+    O4.Facts.Replayfilter.ReplayFilter_TestAndSetNow_prelock ⊆ ["key"] ∧
+    "time.Now" ∉ O4.Facts.Replayfilter.ReplayFilter_TestAndSetNow_prelock_calls ∧
+    "time.Now" ∈ O4.Facts.Replayfilter.ReplayFilter_TestAndSetNow_calls ∧
+    "f.testAndSet" ∈ O4.Facts.Replayfilter.ReplayFilter_TestAndSetNow_calls := by
   decide
 
 /-- full filter (capacity 3): the replay of the second-eldest value is still "seen", the eldest is forgotten -/
